@@ -81,12 +81,6 @@ Theorem C11_general_refuted :
 Proof. exact general_refuted. Qed.
 Print Assumptions C11_general_refuted.
 
-(** MyersDiff panics (index out of range) for one old and eight new elements with nothing in common. *)
-Theorem C11_myers_panic_refuted :
-  myers Z.eqb [1000] [2000;2001;2002;2003;2004;2005;2006;2007] = Panic "patch.diffInternal:index".
-Proof. exact myers_panic_refuted. Qed.
-Print Assumptions C11_myers_panic_refuted.
-
 (** The model of MyersDiff returns a valid script for all pairs of lists of length <= 4 over three
     letters, and of length <= 6 over two letters (exhaustive evaluation; the bounds are part of the
     statement; length <= 5 over three letters: coq/thorough/C11Bounded.v, thorough tier). *)
